@@ -19,6 +19,7 @@ mod pipeline;
 mod prepsync;
 mod hasher;
 mod caches;
+mod extrange;
 mod overflow;
 mod stress;
 mod triepos;
@@ -74,6 +75,7 @@ fn main() {
         "caches" => caches::run(seed, cases, &mut sink),
         "caches-db" => caches::run_db(seed, cases, &mut sink),
         "caches-open0" => caches::run_open0(seed, cases, &mut sink),
+        "extrange" => extrange::run(seed, cases, &mut sink),
         "overlay-index" => ovl::run(seed, cases, &mut sink),
         "bitops" => bitops::run(seed, cases, &mut sink),
         "bitops-node" => bitops::run_nodes(seed, cases, &mut sink),
